@@ -696,7 +696,8 @@ class TemplateModel(object):
         try:
             path = self._find_path(
                 'templates.npy', 'templates.waveforms.npy', 'templates.waveforms.*.npy')
-            data = self._read_array(path, mmap_mode='r+')
+            # NOTE: copy-on-write, so that zeroing the empty templates below never touches the file.
+            data = self._read_array(path, mmap_mode='c')
             data = np.atleast_3d(data)
             assert data.ndim == 3
             assert data.dtype in (np.float32, np.float64)
